@@ -76,7 +76,10 @@ type c15Scn struct {
 	ModIP    netip.Addr
 	List     filter.ID
 	Rule     filter.RuleText
-	Start    time.Time
+	// Both: the response stage produces a result of its own (of the opposite kind, from another list) although
+	// the request stage has already decided; what is logged is the verdict that was acted on
+	Both  bool
+	Start time.Time
 	ReqID    agd.RequestID
 	Prof     *agd.Profile
 	Dev      *agd.Device
@@ -461,6 +464,14 @@ func TestVerifC15(t *testing.T) {
 				return &filter.ResultBlocked{List: s.List, Rule: s.Rule}, nil
 			case "respallow":
 				return &filter.ResultAllowed{List: s.List, Rule: s.Rule}, nil
+			case "reqallow":
+				if s.Both {
+					return &filter.ResultBlocked{List: "other_stage_list", Rule: "||answer.of.the.other.stage^"}, nil
+				}
+			case "reqblock":
+				if s.Both {
+					return &filter.ResultAllowed{List: "other_stage_list", Rule: "@@||answer.of.the.other.stage^"}, nil
+				}
 			}
 			return nil, nil
 		},
@@ -671,6 +682,7 @@ func TestVerifC15(t *testing.T) {
 		if s.List == "blocked_service" {
 			s.Rule = filter.RuleText([]string{"youtube", "tiktok", "9gag"}[rng.Intn(3)])
 		}
+		s.Both = (a.Outcome == "reqblock" || a.Outcome == "reqallow") && rng.Intn(3) == 0
 		s.Start = time.Now().Add(-time.Duration(rng.Intn(40_000_000)) * time.Nanosecond)
 		_, _ = rng.Read(s.ReqID[:])
 		s.EDNS = rng.Intn(2) == 0
